@@ -29,7 +29,7 @@ type Parser struct {
 	Vars []ParsedVariable
 
 	placeholder Atom
-	args        []Term
+	args        []reflect.Value // converted where the placeholder stands, under the double_quotes in force there, as the literal would be
 	text        bool // reading a text of several terms: arguments left over by one term belong to the next ones
 
 	buf tokenRingBuffer
@@ -61,12 +61,11 @@ func NewParser(vm *VM, r io.RuneReader) *Parser {
 // Mismatch of the number of occurrences of placeholder and the number of arguments raises an error.
 func (p *Parser) SetPlaceholder(placeholder Atom, args ...interface{}) error {
 	p.placeholder = placeholder
-	p.args = make([]Term, len(args))
+	p.args = make([]reflect.Value, len(args))
 	for i, a := range args {
-		var err error
-		p.args[i], err = p.termOf(reflect.ValueOf(a))
-		if err != nil {
-			return err
+		p.args[i] = reflect.ValueOf(a)
+		if _, err := p.termOf(p.args[i]); err != nil {
+			return err // What can't be converted is reported here, before anything is read.
 		}
 	}
 	return nil
@@ -151,13 +150,17 @@ func (p *Parser) Term() (Term, error) {
 	}
 
 	if len(p.args) != 0 && !p.text {
-		return nil, errTooManyArgs(p.args)
+		return nil, p.errTooManyArgs()
 	}
 
 	return t, nil
 }
 
-func errTooManyArgs(args []Term) error {
+func (p *Parser) errTooManyArgs() error {
+	args := make([]Term, len(p.args))
+	for i, a := range p.args {
+		args[i], _ = p.termOf(a)
+	}
 	return fmt.Errorf("too many arguments for placeholders: %s", args)
 }
 
@@ -585,7 +588,11 @@ func (p *Parser) term0Atom(maxPriority Integer) (Term, error) {
 		if len(p.args) == 0 {
 			return nil, errPlaceholder
 		}
-		t, p.args = p.args[0], p.args[1:]
+		var a reflect.Value
+		a, p.args = p.args[0], p.args[1:]
+		if t, err = p.termOf(a); err != nil {
+			return nil, err
+		}
 	}
 
 	return t, nil
